@@ -388,7 +388,11 @@ impl RandGen {
                 if cb > 0 && self.rng.chance(1, 3) {
                     self.pending.push_back(Op::Shallow(w.objs.len() as ObjId));
                 }
-                Some(Op::New)
+                if self.rng.chance(1, 3) {
+                    Some(Op::NewVia(1 + self.rng.below(4) as u8))
+                } else {
+                    Some(Op::New)
+                }
             }
             1 => {
                 let hs = all_hrefs(w);
@@ -567,7 +571,14 @@ impl RandGen {
                 let &o = self.rng.pick(&owners)?;
                 Some(Op::TakeWeak(o, self.rng.below(w.objs[o as usize].wheld.len())))
             }
-            13 => Some(Op::WeakNew),
+            13 => {
+                let ws: Vec<usize> = (0..w.weaks.len()).filter(|&s| w.weaks[s].is_some()).collect();
+                if self.rng.chance(1, 2) || ws.is_empty() {
+                    Some(Op::WeakNew)
+                } else {
+                    Some(Op::WeakRawRound(ws[self.rng.below(ws.len())]))
+                }
+            }
             14 => self.rng.pick(&prog).map(|&s| Op::TryUnwrap(s)),
             15 => self.rng.pick(&prog).map(|&s| Op::MakeMut(s)),
             16 => self.rng.pick(&prog).map(|&s| Op::GetMut(s)),
@@ -1000,7 +1011,7 @@ fn count_slots(ops: &[Op]) -> (usize, usize) {
     let mut w = 0;
     for o in ops {
         match o {
-            Op::New | Op::Clone(_) | Op::Take(_, _) | Op::IncStrong(_) => h += 1,
+            Op::New | Op::NewVia(_) | Op::Clone(_) | Op::Take(_, _) | Op::IncStrong(_) => h += 1,
             Op::Downgrade(_) | Op::CloneWeak(_) | Op::WeakNew | Op::TakeWeak(_, _) => w += 1,
             _ => {}
         }
